@@ -46,6 +46,13 @@ Definition binop_code (o : binop) : N :=
   | BEq => OP_EQ | BNe => OP_NE | BLt => OP_LT | BLe => OP_LE | BGt => OP_GT | BGe => OP_GE
   | BAnd => OP_AND | BOr => OP_OR end.
 
+Definition sop1_code (o : sop1) : N :=
+  match o with SLen => OP_STR_LEN | SOfInt => OP_CAST_STRING end.        (* int_to_string is compiled as a cast *)
+Definition sop2_code (o : sop2) : N :=
+  match o with
+  | SPlus => OP_ADD                                                       (* + on strings: the arithmetic opcode *)
+  | SConcat => OP_STR_CONCAT | SEquals => OP_STR_EQ | SContains => OP_STR_CONTAINS | SCharAt => OP_STR_CHAR_AT end.
+
 Record genv := { g_globals : list ident; g_fns : list ident }.
 
 Definition TAG_INT_N : N := 1.
@@ -131,6 +138,28 @@ Fixpoint compile_expr (G : genv) (ce : cenv) (e : expr) (p : pool) {struct e} : 
   | ELen a =>
       match compile_expr G ce a p with
       | Some (ca, p1) => Some (ca ++ [mk OP_ARR_LEN []], p1)
+      | None => None end
+  | EStr1 o a =>
+      (* compile_builtin_call: the operand, then the opcode *)
+      match compile_expr G ce a p with
+      | Some (ca, p1) => Some (ca ++ [mk (sop1_code o) []], p1)
+      | None => None end
+  | EStr2 o a b =>
+      match compile_expr G ce a p with
+      | Some (ca, p1) =>
+          match compile_expr G ce b p1 with
+          | Some (cb, p2) => Some (ca ++ cb ++ [mk (sop2_code o) []], p2)
+          | None => None end
+      | None => None end
+  | ESubstr a b c =>
+      match compile_expr G ce a p with
+      | Some (ca, p1) =>
+          match compile_expr G ce b p1 with
+          | Some (cb, p2) =>
+              match compile_expr G ce c p2 with
+              | Some (cc, p3) => Some (ca ++ cb ++ cc ++ [mk OP_STR_SUBSTR []], p3)
+              | None => None end
+          | None => None end
       | None => None end
   end.
 
